@@ -185,11 +185,30 @@ PROPS['C04'] = {
                   'engine are not decided by this check.',
 }
 
+PROPS['C16'] = {
+    'units': [{'template': 'schema.rs', 'rlimit': 30, 'items': [r'^datalog::']},
+              {'template': 'convert.rs', 'rlimit': 30, 'items': [r'^format::convert::proto_block_to_token_block$']},
+              {'template': 'chain.rs', 'rlimit': 30, 'items': [r'^format::block_signature_version$', r'^format::SerializedBiscuit::(new|append|append_serialized)$']}],
+    'proved': 'SchemaVersion::version() is the lowest of 3 / 4 / 6 that includes every detected feature and check_compatibility(v) is Ok exactly for v >= that version (v >= 3); get_schema_version '
+              'computes exactly the feature tables of the Biscuit specification over all facts, rules, checks and scopes of the block (3.1: scopes, check all, bitwise operators, !=; 3.3: reject if, null / array / map '
+              'terms, closures, typeof, extern calls, heterogeneous (in)equality, lazy && ||, all / any, get); proto_block_to_token_block returns Ok only for 3 <= version <= 6, version >= 5 for third-party blocks, '
+              'check kinds only from 3.1 and reject if only from 3.3, and a declared version at least the detected one; block_signature_version returns 1 for third-party blocks, 3.3 content and non-ed25519 keys, '
+              'and otherwise the maximum of the previous signature versions.',
+    'not_covered': ['the iterator handed to block_signature_version at its three call sites (chain / once / map adaptors, rule A2): that it enumerates the authority and every block is NOT proved, '
+                    'so "never switches back" is proved only relative to that argument', 'ThirdPartyRequest::create_block version >= 3.2 (generic std::cmp::max has only a weak assumed contract)',
+                    'the term-level converters of format/convert.rs mod v2 (assumed total)'],
+    'assumptions': ['derived comparison traits of Term / MapKey are total orders; BTreeSet<Term>::contains(&Null) is membership', 'mod v2 converters of format/convert.rs: assumed fallible and total; '
+                    'proto_check_to_token_check maps the kind tag 0/1/2 to One/All/Reject', 'Iterator::max returns the maximum of the yielded items'] + CRYPTO_ASSUMPTIONS[:1],
+}
+WITNESS_C16 = None
+
 # obligation pattern -> concrete witness search on the real crate (replay/src/main.rs)
 WITNESS = {
     r'token::(unverified::UnverifiedBiscuit|Biscuit)::block::call-pre': 'tools/replay.sh block_index',
     r'UnverifiedBiscuit::append_third_party_with_keypair::call-pre.*unwrap': 'tools/replay.sh unverified_third_party_unwrap',
     r'UnverifiedBiscuit::append_third_party_with_keypair::ensures\.tables': 'tools/replay.sh unverified_third_party_tables',
+    r'datalog::contains_v3_3_(term|op)::': 'tools/replay.sh schema_version_features',
+    r'datalog::SchemaVersion::check_compatibility::': 'tools/replay.sh underdeclared_block_accepted',
 }
 
 NOT_APPLICABLE = {
@@ -199,7 +218,6 @@ NOT_APPLICABLE = {
     'C11': 'quantifies over hash iteration orders of the closure/iterator engine code that neither verifier ingests (DESIGN.md 5/C11)',
     'C13': 'snapshot()/from_snapshot() are chains of iter().map(closure).collect::<Result<..>>() over prost messages with symbol re-interning: outside Verus subset, Kani out of budget (DESIGN.md 5/C13)',
     'C14': 'printing is fmt::Display/format! (macro-generated), parsing is nom combinators (closures returning closures): there is no function on either side to which a contract can be attached (DESIGN.md 5/C14)',
-    'C16': 'check not built yet in this revision (planned: SchemaVersion / block_signature_version, DESIGN.md 5/C16)',
     'C18': 'the macro path is ToTokens implementations emitting token streams inside a proc-macro crate: code behind macros, executed by the compiler; no contract can state what Rust expression a token stream denotes (DESIGN.md 5/C18)',
     'C19': 'check not built yet in this revision (planned: Kani on the C API size/buffer obligations, DESIGN.md 5/C19)',
     'C20': 'substitution/validation are drain().map(closure).collect() over HashMap<String,_>/BTree collections: structural induction over code neither back end accepts (DESIGN.md 5/C20)',
